@@ -89,7 +89,7 @@ def gen(seed, tier):
                 ops.append(['IUSE', rng.choice('qqqr'), [['a', rng.choice('abc')], ['v', 100]]])
             else:
                 ops.append(['ISTEP', rng.randrange(3)])
-    for _ in range(rng.randrange(2, 22)):
+    for _ in range(rng.randrange(2, 22 * (2 if tier == 'thorough' else 1))):
         k = rng.random()
         if k < 0.05:
             ops.append(['NEWVAR'])
